@@ -85,6 +85,8 @@ def compare(ctx, infr, infr2, inam2, e1, e2, mode, case, tag):
     H = brute(infr, infr2, inam2, e1, e2, mode) if infr2.size <= 4000 else brute_fast(infr, infr2, inam2, e1, e2, mode)
     tot = np.abs(inam2 ** 2 if mode == 'energy' else inam2).sum() or 1.0
     tol = 1e-12 * tot
+    Ha = brute(infr, infr2, np.abs(inam2), e1, e2, mode) if infr2.size <= 4000 else brute_fast(infr, infr2, np.abs(inam2), e1, e2, mode)
+    tolH = 1e-12 * Ha + 1e-300        # per-cell tolerance (see C10)
     f1, f2 = np.asarray(infr, dtype=float), np.asarray(infr2, dtype=float)
     in1 = (f1 >= e1[0]) & (f1 < e1[-1])
     in2 = (f2 >= e2[0]) & (f2 < e2[-1])
@@ -106,7 +108,7 @@ def compare(ctx, infr, infr2, inam2, e1, e2, mode, case, tag):
     if ssum.shape != H.shape[1:] or smean.shape != H.shape[1:]:
         ctx.violation('holo-shape-squashed', 'time-squashed holospectrum has shape %s / %s, expected %s' % (ssum.shape, smean.shape, H.shape[1:]), case)
         return
-    if np.abs(full - H).max() > tol:
+    if np.any(np.abs(full - H) > tolH):
         t, a, c = np.unravel_index(np.argmax(np.abs(full - H)), H.shape)
         key = 'holo-full'
         if np.abs(np.swapaxes(full, 1, 2) - H).max() <= tol if full.shape[1] == full.shape[2] else False:
@@ -116,10 +118,10 @@ def compare(ctx, infr, infr2, inam2, e1, e2, mode, case, tag):
         ctx.violation(key, 'holospectrum[t=%d, am=%d, carrier=%d] = %.4g, brute force %.4g (carrier edges %s, AM edges %s, mode %s)'
                       % (t, a, c, full[t, a, c], H[t, a, c], np.round(e1, 3).tolist(), np.round(e2, 3).tolist(), mode), case)
         return
-    if np.abs(ssum - H.sum(axis=0)).max() > tol:
+    if np.any(np.abs(ssum - H.sum(axis=0)) > 1e-12 * Ha.sum(axis=0) + 1e-300):
         ctx.violation('holo-sum', "squash_time='sum' differs from the sum over time of the full output", case)
         return
-    if np.abs(smean - H.mean(axis=0)).max() > tol:
+    if np.any(np.abs(smean - H.mean(axis=0)) > 1e-12 * Ha.mean(axis=0) + 1e-300):
         ctx.violation('holo-mean', "squash_time='mean' differs from the mean over time of the full output", case)
         return
     if not all(np.array_equal(a, b) for a, b in zip(keep, (infr, infr2, inam2))):
@@ -171,6 +173,9 @@ def run_shard(ctx):
         infr2[r2 < .1] = rng.choice(e2, int((r2 < .1).sum()))
         infr2[(r2 > .95)] *= -1
         inam2 = rng.uniform(.1, 3, (T, M, K))
+        if rng.random() < .15:
+            inam2 = inam2 * 10.0 ** rng.integers(-9, 10, (T, M, K))
+            ctx.count('wide_dynamic_range_cases')
         if rng.random() < .3:
             inam2[rng.integers(0, T), :, :] = 0.0  # a time point without any energy
             ctx.count('with_silent_time_point')
